@@ -294,6 +294,68 @@ func c09TwoClients(unmountFirst, dotu bool, P int) Scenario {
 	return vsScenario(&VsSpec{Name: name, Body: body, Check: check, P: P, Delay: true})
 }
 
+// c09AfterHelpers: the client's own helpers (path walks longer than one Twalk, open,
+// stat, close) are made of the same calls and recycle the same request and message
+// slots. After them, concurrent calls still get their own replies.
+func c09AfterHelpers(elems int, dotu bool, P int) Scenario {
+	var peer *Peer
+	var res []*callRes
+	var setupErr string
+	name := fmt.Sprintf("calls-after-path-helpers elems=%d dotu=%v", elems, dotu)
+	body := func() {
+		setupErr = ""
+		c, pr := newClientPair(8192, dotu)
+		peer = pr
+		c.Root = mkFid(c, 0)
+		var names []string
+		for i := 0; i < elems; i++ {
+			names = append(names, fmt.Sprintf("e%d", i))
+		}
+		f, err := c.FWalk(strings.Join(names, "/"))
+		if err != nil || f == nil {
+			setupErr = fmt.Sprintf("FWalk over %d elements: %v", elems, err)
+			return
+		}
+		if _, err := c.FStat("a/b"); err != nil {
+			setupErr = fmt.Sprintf("FStat: %v", err)
+			return
+		}
+		c.Clunk(f)
+		peer.Seen = nil
+		peer.Batch = 3
+		peer.BatchOnce = true
+		res = make([]*callRes, 3)
+		vs.Window(true)
+		for i := 0; i < 3; i++ {
+			i := i
+			vs.Go("caller", func() { res[i] = doCall(c, callSpec{[]string{"read", "stat", "write"}[i], uint32(300 + i)}) })
+		}
+		vs.Idle()
+		vs.Window(false)
+	}
+	check := stdCheck("C09", func(x *vs.Exec) *Viol {
+		if setupErr != "" {
+			return &Viol{Sig: "C09/helper-failed/" + sigWords(setupErr), Msg: setupErr}
+		}
+		if peer.Dup != "" {
+			return &Viol{Sig: "C09/tag-reused-while-outstanding/after-helpers", Msg: peer.Dup}
+		}
+		if peer.BadFrame != "" {
+			return &Viol{Sig: "C09/client-sent-malformed-frame/after-helpers", Msg: peer.BadFrame}
+		}
+		for i, r := range res {
+			if r == nil || !r.done {
+				return &Viol{Sig: "C09/call-never-returned/after-helpers", Msg: fmt.Sprintf("call %d never returned after a path walk of %d elements (parked %v; the peer saw %v)", i, elems, x.Parked, peer.Seen)}
+			}
+			if msg := r.verify("ok", dotu, nil); msg != "" {
+				return &Viol{Sig: "C09/" + sigWords(msg) + "/after-helpers", Msg: fmt.Sprintf("call %d (%s fid %d) after a path walk of %d elements: %s (the peer saw %v)", i, r.spec.Kind, r.spec.Fid, elems, msg, peer.Seen)}
+			}
+		}
+		return nil
+	}, nil)
+	return vsScenario(&VsSpec{Name: name, Body: body, Check: check, P: P, Delay: true})
+}
+
 // pipelined Tag interface: requests sharing a tag complete in the order issued
 func c09TagScenario(n int, dotu bool, P int) Scenario {
 	var got []string
@@ -470,6 +532,7 @@ func c09Scenarios(tier string) []Scenario {
 		}
 	}
 	out = append(out, c09TwoClients(false, true, 1), c09TwoClients(true, false, 1))
+	out = append(out, c09AfterHelpers(3, true, 1), c09AfterHelpers(17, false, 1), c09AfterHelpers(40, true, 1))
 	// two calls per caller (request slots and Fcalls recycled between calls)
 	out = append(out, c09Scenario(c09Params{Calls: [][]callSpec{{{"read", 10}, {"stat", 11}}, {{"write", 20}, {"read", 21}}}, Kinds: []string{"ok", "error", "ok", "ok"}, Order: []int{1, 0}, Dotu: true, P: P}))
 	out = append(out, c09Scenario(c09Params{Calls: [][]callSpec{{{"read", 10}, {"read", 11}}, {{"read", 20}}}, Kinds: nil, Order: []int{0, 1}, OneWrite: true, P: P}))
